@@ -1234,6 +1234,13 @@ def fail_events(model: TopoModel):
                 ev.append(('fail', 'service-kth-interface', why, ty, tuple(g), b))
         for why, b in bads[:3]:
             ev.append(('fail', 'mirror-bad-to-interface', why, b))
+        # a link given the id of an element that exists already (another link, an interface, a node)
+        if len(free) >= 2:
+            taken = [nodes[names[0]].node_id] if names else []
+            taken += [model.t.links[l].node_id for l in sorted(model.t.links.keys())[:1]]
+            taken += [free[0][1].node_id]
+            for tid in taken:
+                ev.append(('fail', 'link-duplicate-id', tid, (model._pref(free[0]), model._pref(free[1]))))
         # a link whose k-th interface handle went stale (its owner was removed after the handle was taken)
         if len(free) >= 2:
             for pos in (0, 1):
@@ -1282,6 +1289,10 @@ def fail_events(model: TopoModel):
         links = sorted(model.t.links.keys())
         if links and len(fp) >= 2:
             ev.append(('fail', 'link-duplicate-name', links[0], tuple(fp[:2])))
+            ev.append(('fail', 'link-duplicate-id', model.t.links[links[0]].node_id, tuple(fp[:2])))
+        if names and len(fp) >= 2:
+            ev.append(('fail', 'link-duplicate-id', nodes[names[0]].node_id, tuple(fp[:2])))
+            ev.append(('fail', 'link-duplicate-id', model.port(*fp[0]).node_id, tuple(fp[:2])))
         if names:
             ev.append(('fail', 'sub-node-without-id'))
         if 'sw' in names and nodes['sw'].network_services:
@@ -1433,6 +1444,8 @@ def _do_fail(model: TopoModel, ev):
         t.add_link(name='lx', node_id='id-lx', ltype=LinkType.Patch, interfaces=[model.port(*r) for r in ev[2]], boot_script=BAD)
     elif kind == 'link-no-type':
         t.add_link(name='lx', node_id='id-lx', ltype=None, interfaces=[model.port(*r) for r in ev[2]])
+    elif kind == 'link-duplicate-id':
+        t.add_link(name='lxid', node_id=ev[2], ltype=LinkType.Patch, interfaces=[model.port(*r) for r in ev[3]])
     elif kind == 'link-duplicate-name':
         t.add_link(name=ev[2], node_id='id-lx', ltype=LinkType.Patch, interfaces=[model.port(*r) for r in ev[3]])
     elif kind == 'sub-node-without-id':
